@@ -89,55 +89,57 @@ func checkC11(c *Check, p *Program) {
 		c.Decide(ok && v == k.want, "C11.const", "cemi."+k.name, "", fmt.Sprintf("%#x", k.want), fmt.Sprintf("constant is %#x (found=%v), the specification says %#x", v, ok, k.want))
 	}
 
-	// ---- (4) helpers over their whole domain
-	helper := func(fn *ssa.Function, name string, names map[int]string, want map[string]string) []Alt {
+	// ---- (4) helpers over their whole domain: the complete value table of each one-octet helper
+	// (exact evaluation over all 256 arguments) against the specification's formula
+	tableRule := func(fn *ssa.Function, name, formula string, spec func(x int64) int64) *[256]int64 {
 		if fn == nil {
 			c.Fail("C11.helper", name, "", "function not found")
 			return nil
 		}
 		c.Analysed("functions", FuncName(fn))
-		alts := evalFunc(p, fn, names)
 		pos := p.Pos(fn.Pos())
-		c.Decide(len(alts) == len(want), "C11.helper", name+" number of cases", pos, fmt.Sprintf("%d", len(alts)), fmt.Sprintf("%d result alternatives, expected %d", len(alts), len(want)))
-		for _, a := range alts {
-			got := "?"
-			if a.V != nil {
-				got = a.V.String()
-			}
-			matched := false
-			for _, w := range want {
-				if a.V != nil && a.V.Equal(wantBits(w)) {
-					matched = true
-				}
-			}
-			c.Decide(matched, "C11.helper", name+" result ["+strings.Join(a.Cond, " & ")+"]", pos, "= "+got, "evaluates to ["+got+"], which is none of the documented results "+fmt.Sprint(want))
+		tab, ok := finTable8(fn)
+		if !ok {
+			c.Fail("C11.helper", name+" = "+formula, pos, "the helper is not a pure function of one octet that the exact evaluation understands (loops, loads or calls of other code)")
+			return nil
 		}
-		return alts
+		bad := -1
+		for i := 0; i < 256; i++ {
+			if tab[i] != spec(int64(i)) {
+				bad = i
+				break
+			}
+		}
+		why := ""
+		if bad >= 0 {
+			why = fmt.Sprintf("for argument %d the helper yields %#x, the specification %s gives %#x", bad, tab[bad], formula, spec(int64(bad)))
+		}
+		c.Decide(bad < 0, "C11.helper", name+" = "+formula, pos, "equal on all 256 arguments", why)
+		return tab
 	}
-	helper(p.Func("knx/cemi", "Control1Prio"), "cemi.Control1Prio", map[int]string{0: "p"}, map[string]string{"": "0000 p[1..0] 00"})
-	helper(p.Func("knx/cemi", "Control2Hops"), "cemi.Control2Hops", map[int]string{0: "h"}, map[string]string{"unclamped": "0 h[2..0] 0000", "clamped": "0 111 0000"})
-	hops := p.Method("knx/cemi", "ControlField2", "Hops")
-	helper(hops, "cemi.ControlField2.Hops", map[int]string{0: "c"}, map[string]string{"": "00000 c[6..4]"})
-	helper(p.Method("knx/cemi", "ControlField2", "IsGroupAddr"), "cemi.ControlField2.IsGroupAddr", map[int]string{0: "c"}, map[string]string{"": "c[7]"})
-	// composition: Hops(Control2Hops(h))
-	if c2h := p.Func("knx/cemi", "Control2Hops"); c2h != nil && hops != nil {
-		inner := evalFunc(p, c2h, map[int]string{0: "h"})
-		for _, a := range inner {
-			if a.V == nil {
-				continue
-			}
-			ev := &BitEval{P: p, Env: map[ssa.Value]BV{hops.Params[0]: a.V}}
-			var res []Alt
-			for _, r := range returnsOf(hops) {
-				res = append(res, ev.Eval(r.Results[0])...)
-			}
-			okC := len(res) == 1 && res[0].V != nil && (res[0].V.Equal(wantBits("00000 h[2..0]")) || res[0].V.Equal(wantBits("00000 111")))
-			got := "?"
-			if len(res) == 1 && res[0].V != nil {
-				got = res[0].V.String()
-			}
-			c.Decide(okC, "C11.helper", "Hops(Control2Hops(h)) ["+strings.Join(a.Cond, " & ")+"]", p.Pos(hops.Pos()), "= "+got, "the hop-count accessor applied to the constructor's result yields ["+got+"], not the encoded hop count")
+	tableRule(p.Func("knx/cemi", "Control1Prio"), "cemi.Control1Prio(p)", "(p & 3) << 2", func(x int64) int64 { return (x & 3) << 2 })
+	c2tab := tableRule(p.Func("knx/cemi", "Control2Hops"), "cemi.Control2Hops(h)", "min(h, 7) << 4", func(x int64) int64 {
+		if x > 7 {
+			x = 7
 		}
+		return x << 4
+	})
+	hops := p.Method("knx/cemi", "ControlField2", "Hops")
+	htab := tableRule(hops, "cemi.ControlField2.Hops(c)", "(c >> 4) & 7", func(x int64) int64 { return (x >> 4) & 7 })
+	tableRule(p.Method("knx/cemi", "ControlField2", "IsGroupAddr"), "cemi.ControlField2.IsGroupAddr(c)", "bit 7 of c", func(x int64) int64 { return x >> 7 & 1 })
+	// composition: Hops(Control2Hops(h)) = min(h, 7)
+	if c2tab != nil && htab != nil {
+		bad := -1
+		for h := 0; h < 256; h++ {
+			want := int64(h)
+			if want > 7 {
+				want = 7
+			}
+			if htab[uint8(c2tab[h])] != want {
+				bad = h
+			}
+		}
+		c.Decide(bad < 0, "C11.helper", "Hops(Control2Hops(h)) = min(h, 7)", p.Pos(hops.Pos()), "on all 256 hop counts", fmt.Sprintf("for h = %d the accessor does not return the encoded hop count", bad))
 	}
 	if isGC := p.Method("knx/cemi", "APCI", "IsGroupCommand"); isGC != nil {
 		lo, hi, ok := acceptInterval(isGC)
@@ -421,7 +423,8 @@ func checkC11Decode(c *Check, p *Program) {
 				if call, ok := x.(*ssa.Call); ok && builtinName(call) == "copy" {
 					if sl, ok := call.Common().Args[1].(*ssa.Slice); ok && sl.X == ssa.Value(tu.Params[0]) {
 						if k, ok := constInt(sl.Low); ok && k == 2 {
-							okP = true
+							mn, mx := pathCount(al.Block(), func(y ssa.Instruction) bool { return y == ssa.Instruction(call) }, nil)
+							okP = mn == 1 && mx == 1
 						}
 					}
 				}
@@ -430,7 +433,10 @@ func checkC11Decode(c *Check, p *Program) {
 						if k, isK := constInt(ia.Index); isK && k == 0 {
 							if bo, ok := st.Val.(*ssa.BinOp); ok && bo.Op == token.AND {
 								if m, ok := constInt(bo.Y); ok && m == 63 {
-									okMask = true
+									// on every path from the composite to the exit, exactly once (a mask applied only
+									// for some lengths leaves command bits in longer payloads)
+									mn, mx := pathCount(al.Block(), func(y ssa.Instruction) bool { return y == ssa.Instruction(st) }, nil)
+									okMask = mn == 1 && mx == 1
 								}
 							}
 						}
